@@ -54,6 +54,8 @@ void h_watchdog(unsigned seconds);
 void dom_intfmt(void);
 void dom_queue(void);
 void dom_regs(void);
+void dom_heap(void);
+void dom_lexer(void);
 void dom_replay(const char *line);
 
 #endif
